@@ -173,7 +173,7 @@ def mappings_from_load_steps(
             if (table_name, fieldname) not in reference_fields.keys()
             and fieldname != record_type_col
         }
-        if record_type_col:
+        if record_type_col and (table_name, record_type_col) not in reference_fields:
             fields["RecordTypeId"] = record_type_col
 
         lookups = {
